@@ -129,6 +129,9 @@ def step (st : St) (line : String) : IO St := do
     if small "exact_fixed_change" 1e-7 == some false then
       IO.println s!"ORACLE C10 a cycle started from the exact discrete solution moved it ({line.trimAscii})"
       st := { st with oracleFails := st.oracleFails + 1 }
+    if small "textbook_cycle_diff" 1e-9 == some false then
+      IO.println s!"ORACLE C10 a cycle (work vectors filled with arbitrary data) differs from the textbook correction scheme composed from the public operators on the same start iterate ({line.trimAscii})"
+      st := { st with oracleFails := st.oracleFails + 1 }
     if small "two_level_diff" 1e-8 == some false then
       IO.println s!"ORACLE C10 two-level cycle without smoothing differs from u + P A_c^-1 R (f - A u) ({line.trimAscii})"
       st := { st with oracleFails := st.oracleFails + 1 }
